@@ -13,40 +13,37 @@
 //! and prints inputs + observed outputs as Coq terms of type `case` (Corr/C13.v).
 use barter_data::{
     Identifier,
-    event::{MarketEvent, MarketIter},
+    event::MarketEvent,
     exchange::{
-        Connector,
-        binance::{
-            book::l1::BinanceOrderBookL1,
-            futures::{BinanceFuturesUsd, liquidation::BinanceLiquidation},
-            spot::BinanceSpot,
-            trade::BinanceTrade,
-        },
-        bitfinex::{Bitfinex, message::BitfinexMessage},
-        bitmex::{Bitmex, trade::BitmexTrade},
-        bybit::{futures::BybitPerpetualsUsd, message::BybitMessage, spot::BybitSpot},
-        coinbase::{Coinbase, trade::CoinbaseTrade},
+        Connector, StreamSelector,
+        binance::{futures::BinanceFuturesUsd, spot::BinanceSpot},
+        bitfinex::Bitfinex,
+        bitmex::Bitmex,
+        bybit::{futures::BybitPerpetualsUsd, spot::BybitSpot},
+        coinbase::Coinbase,
         gateio::{
             future::{GateioFuturesBtc, GateioFuturesUsd},
             option::GateioOptions,
-            perpetual::{GateioPerpetualsBtc, GateioPerpetualsUsd, trade::GateioFuturesTrades},
-            spot::{GateioSpot, trade::GateioSpotTrade},
+            perpetual::{GateioPerpetualsBtc, GateioPerpetualsUsd},
+            spot::GateioSpot,
         },
-        kraken::{Kraken, book::l1::KrakenOrderBookL1, trade::KrakenTrades},
-        okx::{Okx, trade::OkxTrades},
+        kraken::Kraken,
+        okx::Okx,
     },
     instrument::{InstrumentData, MarketInstrumentData},
+    streams::builder::dynamic::validate_subscriptions,
     subscriber::{
         mapper::{SubscriptionMapper, WebSocketSubMapper},
         validator::SubscriptionValidator,
     },
     subscription::{
-        Map, Subscription, SubscriptionKind, SubscriptionMeta,
+        Map, SubKind, Subscription, SubscriptionKind, SubscriptionMeta,
         book::{OrderBookL1, OrderBooksL1},
+        exchange_supports_instrument_kind, exchange_supports_instrument_kind_sub_kind,
         liquidation::{Liquidation, Liquidations},
         trade::{PublicTrade, PublicTrades},
     },
-    transformer::{ExchangeTransformer, stateless::StatelessTransformer},
+    transformer::ExchangeTransformer,
 };
 use barter_instrument::{
     Keyed, Side,
@@ -61,8 +58,9 @@ use barter_instrument::{
 };
 use barter_integration::{
     Transformer,
+    protocol::StreamParser,
+    stream::ExchangeStream,
     protocol::websocket::{WsMessage, connect},
-    subscription::SubscriptionId,
 };
 use chrono::{DateTime, SecondsFormat, TimeZone, Utc};
 use futures::{SinkExt, StreamExt};
@@ -741,19 +739,41 @@ async fn bitfinex_venue(
     confs
 }
 
-async fn run_g<Exc, Kind, Msg, Inst>(
+/// The transformer type a connector's `StreamSelector` wires to a (connector, kind) stream:
+/// `<Exchange as StreamSelector<Instrument, Kind>>::Stream` is an
+/// `ExchangeStream<Parser, WsStream, Transformer>`; `init_market_stream::<Exchange, ..>` (what
+/// every arm of `DynamicStreams::init` calls) initialises exactly that type. The harness takes
+/// the transformer (and through `Transformer::Input` the message type the payloads are
+/// deserialised into) from there instead of naming it.
+trait TransformerOf {
+    type T;
+}
+impl<P, S, T> TransformerOf for ExchangeStream<P, S, T>
+where
+    P: StreamParser,
+    S: futures::Stream,
+    T: Transformer,
+{
+    type T = T;
+}
+type TrOf<Exc, Inst, Kind> = <<Exc as StreamSelector<Inst, Kind>>::Stream as TransformerOf>::T;
+
+async fn run_g<Exc, Kind, Inst>(
     subs: Vec<Subscription<Exc, Inst, Kind>>,
     key_idx: &dyn Fn(&Inst::Key) -> u64,
     case: &CaseIn,
 ) -> RunOut
 where
-    Exc: Connector + Send + Sync,
+    Exc: Connector + StreamSelector<Inst, Kind> + Send + Sync,
     Kind: SubscriptionKind + Send + Sync,
     Inst: InstrumentData,
     Inst::Key: Clone + Send,
     Subscription<Exc, Inst, Kind>: Identifier<Exc::Channel> + Identifier<Exc::Market>,
-    Msg: Identifier<Option<SubscriptionId>> + for<'de> Deserialize<'de>,
-    MarketIter<Inst::Key, Kind::Event>: From<(ExchangeId, Inst::Key, Msg)>,
+    <Exc as StreamSelector<Inst, Kind>>::Stream: TransformerOf,
+    TrOf<Exc, Inst, Kind>: ExchangeTransformer<Exc, Inst::Key, Kind>,
+    <TrOf<Exc, Inst, Kind> as Transformer>::Input: for<'de> Deserialize<'de>,
+    <TrOf<Exc, Inst, Kind> as Transformer>::OutputIter:
+        IntoIterator<Item = Result<MarketEvent<Inst::Key, Kind::Event>, barter_data::error::DataError>>,
     Kind::Event: ObsBody,
 {
     let SubscriptionMeta { instrument_map, ws_subscriptions } =
@@ -801,7 +821,7 @@ where
     map.sort();
 
     let (tx, _rx) = tokio::sync::mpsc::unbounded_channel::<WsMessage>();
-    let mut tr = StatelessTransformer::<Exc, Inst::Key, Kind, Msg>::init(instrument_map, &[], tx)
+    let mut tr = <TrOf<Exc, Inst, Kind> as ExchangeTransformer<Exc, Inst::Key, Kind>>::init(instrument_map, &[], tx)
         .await
         .expect("transformer init");
     let norm_id = case.ex == Ex::Kraken;
@@ -813,7 +833,8 @@ where
             _ => true,
         };
         let res = std::panic::catch_unwind(AssertUnwindSafe(|| {
-            serde_json::from_str::<Msg>(&text).map(|msg| tr.transform(msg))
+            serde_json::from_str::<<TrOf<Exc, Inst, Kind> as Transformer>::Input>(&text)
+                .map(|msg| tr.transform(msg).into_iter().collect::<Vec<_>>())
         }));
         let out = match res {
             Err(_) => ("OPanic".to_string(), "panic"),
@@ -857,17 +878,35 @@ fn mdi(su: &SubIn) -> MarketDataInstrument {
     MarketDataInstrument::new(su.base.as_str(), su.quote.as_str(), su.kind.real())
 }
 
-async fn run_pair<Exc, Kind, Msg>(exc: Exc, kind: Kind, case: &CaseIn, keys: &[u64]) -> RunOut
+async fn run_pair<Exc, Kind>(exc: Exc, kind: Kind, case: &CaseIn, keys: &[u64]) -> RunOut
 where
-    Exc: Connector + Send + Sync + Clone,
+    Exc: Connector
+        + StreamSelector<MarketDataInstrument, Kind>
+        + StreamSelector<Keyed<u64, MarketDataInstrument>, Kind>
+        + StreamSelector<MarketInstrumentData<u64>, Kind>
+        + Send
+        + Sync
+        + Clone,
     Kind: SubscriptionKind + Send + Sync + Clone,
-    Msg: Identifier<Option<SubscriptionId>> + for<'de> Deserialize<'de>,
     Kind::Event: ObsBody,
     Subscription<Exc, MarketDataInstrument, Kind>: Identifier<Exc::Channel> + Identifier<Exc::Market>,
     Subscription<Exc, Keyed<u64, MarketDataInstrument>, Kind>: Identifier<Exc::Channel> + Identifier<Exc::Market>,
     Subscription<Exc, MarketInstrumentData<u64>, Kind>: Identifier<Exc::Channel> + Identifier<Exc::Market>,
-    MarketIter<MarketDataInstrument, Kind::Event>: From<(ExchangeId, MarketDataInstrument, Msg)>,
-    MarketIter<u64, Kind::Event>: From<(ExchangeId, u64, Msg)>,
+    <Exc as StreamSelector<MarketDataInstrument, Kind>>::Stream: TransformerOf,
+    TrOf<Exc, MarketDataInstrument, Kind>: ExchangeTransformer<Exc, MarketDataInstrument, Kind>,
+    <TrOf<Exc, MarketDataInstrument, Kind> as Transformer>::Input: for<'de> Deserialize<'de>,
+    <TrOf<Exc, MarketDataInstrument, Kind> as Transformer>::OutputIter:
+        IntoIterator<Item = Result<MarketEvent<MarketDataInstrument, Kind::Event>, barter_data::error::DataError>>,
+    <Exc as StreamSelector<Keyed<u64, MarketDataInstrument>, Kind>>::Stream: TransformerOf,
+    TrOf<Exc, Keyed<u64, MarketDataInstrument>, Kind>: ExchangeTransformer<Exc, u64, Kind>,
+    <TrOf<Exc, Keyed<u64, MarketDataInstrument>, Kind> as Transformer>::Input: for<'de> Deserialize<'de>,
+    <TrOf<Exc, Keyed<u64, MarketDataInstrument>, Kind> as Transformer>::OutputIter:
+        IntoIterator<Item = Result<MarketEvent<u64, Kind::Event>, barter_data::error::DataError>>,
+    <Exc as StreamSelector<MarketInstrumentData<u64>, Kind>>::Stream: TransformerOf,
+    TrOf<Exc, MarketInstrumentData<u64>, Kind>: ExchangeTransformer<Exc, u64, Kind>,
+    <TrOf<Exc, MarketInstrumentData<u64>, Kind> as Transformer>::Input: for<'de> Deserialize<'de>,
+    <TrOf<Exc, MarketInstrumentData<u64>, Kind> as Transformer>::OutputIter:
+        IntoIterator<Item = Result<MarketEvent<u64, Kind::Event>, barter_data::error::DataError>>,
 {
     match case.flavour {
         Flavour::Plain => {
@@ -878,7 +917,7 @@ where
             let idx = move |k: &MarketDataInstrument| -> u64 {
                 insts.iter().position(|i| i == k).map(|p| keys[p]).unwrap_or(999_999_999)
             };
-            run_g::<Exc, Kind, Msg, MarketDataInstrument>(subs, &idx, case).await
+            run_g::<Exc, Kind, MarketDataInstrument>(subs, &idx, case).await
         }
         Flavour::Keyed => {
             let subs: Vec<Subscription<Exc, Keyed<u64, MarketDataInstrument>, Kind>> = case
@@ -886,7 +925,7 @@ where
                 .iter()
                 .map(|su| Subscription::new(exc.clone(), Keyed::new(su.key, mdi(su)), kind.clone()))
                 .collect();
-            run_g::<Exc, Kind, Msg, Keyed<u64, MarketDataInstrument>>(subs, &|k: &u64| *k, case).await
+            run_g::<Exc, Kind, Keyed<u64, MarketDataInstrument>>(subs, &|k: &u64| *k, case).await
         }
         Flavour::Named => {
             let subs: Vec<Subscription<Exc, MarketInstrumentData<u64>, Kind>> = case
@@ -900,7 +939,7 @@ where
                     )
                 })
                 .collect();
-            run_g::<Exc, Kind, Msg, MarketInstrumentData<u64>>(subs, &|k: &u64| *k, case).await
+            run_g::<Exc, Kind, MarketInstrumentData<u64>>(subs, &|k: &u64| *k, case).await
         }
     }
 }
@@ -920,25 +959,25 @@ fn model_keys(case: &CaseIn) -> Vec<u64> {
 async fn run_case(case: &CaseIn) -> RunOut {
     let keys = model_keys(case);
     match (case.ex, case.sk) {
-        (Ex::BinanceSpot, Sk::Trades) => run_pair::<_, _, BinanceTrade>(BinanceSpot::default(), PublicTrades, case, &keys).await,
-        (Ex::BinanceSpot, Sk::L1) => run_pair::<_, _, BinanceOrderBookL1>(BinanceSpot::default(), OrderBooksL1, case, &keys).await,
-        (Ex::BinanceFuturesUsd, Sk::Trades) => run_pair::<_, _, BinanceTrade>(BinanceFuturesUsd::default(), PublicTrades, case, &keys).await,
-        (Ex::BinanceFuturesUsd, Sk::L1) => run_pair::<_, _, BinanceOrderBookL1>(BinanceFuturesUsd::default(), OrderBooksL1, case, &keys).await,
-        (Ex::BinanceFuturesUsd, Sk::Liq) => run_pair::<_, _, BinanceLiquidation>(BinanceFuturesUsd::default(), Liquidations, case, &keys).await,
-        (Ex::Bitfinex, Sk::Trades) => run_pair::<_, _, BitfinexMessage>(Bitfinex, PublicTrades, case, &keys).await,
-        (Ex::Bitmex, Sk::Trades) => run_pair::<_, _, BitmexTrade>(Bitmex, PublicTrades, case, &keys).await,
-        (Ex::BybitSpot, Sk::Trades) => run_pair::<_, _, BybitMessage>(BybitSpot::default(), PublicTrades, case, &keys).await,
-        (Ex::BybitPerpetualsUsd, Sk::Trades) => run_pair::<_, _, BybitMessage>(BybitPerpetualsUsd::default(), PublicTrades, case, &keys).await,
-        (Ex::Coinbase, Sk::Trades) => run_pair::<_, _, CoinbaseTrade>(Coinbase, PublicTrades, case, &keys).await,
-        (Ex::GateioSpot, Sk::Trades) => run_pair::<_, _, GateioSpotTrade>(GateioSpot::default(), PublicTrades, case, &keys).await,
-        (Ex::GateioFuturesUsd, Sk::Trades) => run_pair::<_, _, GateioFuturesTrades>(GateioFuturesUsd::default(), PublicTrades, case, &keys).await,
-        (Ex::GateioFuturesBtc, Sk::Trades) => run_pair::<_, _, GateioFuturesTrades>(GateioFuturesBtc::default(), PublicTrades, case, &keys).await,
-        (Ex::GateioPerpetualsUsd, Sk::Trades) => run_pair::<_, _, GateioFuturesTrades>(GateioPerpetualsUsd::default(), PublicTrades, case, &keys).await,
-        (Ex::GateioPerpetualsBtc, Sk::Trades) => run_pair::<_, _, GateioFuturesTrades>(GateioPerpetualsBtc::default(), PublicTrades, case, &keys).await,
-        (Ex::GateioOptions, Sk::Trades) => run_pair::<_, _, GateioFuturesTrades>(GateioOptions::default(), PublicTrades, case, &keys).await,
-        (Ex::Kraken, Sk::Trades) => run_pair::<_, _, KrakenTrades>(Kraken, PublicTrades, case, &keys).await,
-        (Ex::Kraken, Sk::L1) => run_pair::<_, _, KrakenOrderBookL1>(Kraken, OrderBooksL1, case, &keys).await,
-        (Ex::Okx, Sk::Trades) => run_pair::<_, _, OkxTrades>(Okx, PublicTrades, case, &keys).await,
+        (Ex::BinanceSpot, Sk::Trades) => run_pair(BinanceSpot::default(), PublicTrades, case, &keys).await,
+        (Ex::BinanceSpot, Sk::L1) => run_pair(BinanceSpot::default(), OrderBooksL1, case, &keys).await,
+        (Ex::BinanceFuturesUsd, Sk::Trades) => run_pair(BinanceFuturesUsd::default(), PublicTrades, case, &keys).await,
+        (Ex::BinanceFuturesUsd, Sk::L1) => run_pair(BinanceFuturesUsd::default(), OrderBooksL1, case, &keys).await,
+        (Ex::BinanceFuturesUsd, Sk::Liq) => run_pair(BinanceFuturesUsd::default(), Liquidations, case, &keys).await,
+        (Ex::Bitfinex, Sk::Trades) => run_pair(Bitfinex, PublicTrades, case, &keys).await,
+        (Ex::Bitmex, Sk::Trades) => run_pair(Bitmex, PublicTrades, case, &keys).await,
+        (Ex::BybitSpot, Sk::Trades) => run_pair(BybitSpot::default(), PublicTrades, case, &keys).await,
+        (Ex::BybitPerpetualsUsd, Sk::Trades) => run_pair(BybitPerpetualsUsd::default(), PublicTrades, case, &keys).await,
+        (Ex::Coinbase, Sk::Trades) => run_pair(Coinbase, PublicTrades, case, &keys).await,
+        (Ex::GateioSpot, Sk::Trades) => run_pair(GateioSpot::default(), PublicTrades, case, &keys).await,
+        (Ex::GateioFuturesUsd, Sk::Trades) => run_pair(GateioFuturesUsd::default(), PublicTrades, case, &keys).await,
+        (Ex::GateioFuturesBtc, Sk::Trades) => run_pair(GateioFuturesBtc::default(), PublicTrades, case, &keys).await,
+        (Ex::GateioPerpetualsUsd, Sk::Trades) => run_pair(GateioPerpetualsUsd::default(), PublicTrades, case, &keys).await,
+        (Ex::GateioPerpetualsBtc, Sk::Trades) => run_pair(GateioPerpetualsBtc::default(), PublicTrades, case, &keys).await,
+        (Ex::GateioOptions, Sk::Trades) => run_pair(GateioOptions::default(), PublicTrades, case, &keys).await,
+        (Ex::Kraken, Sk::Trades) => run_pair(Kraken, PublicTrades, case, &keys).await,
+        (Ex::Kraken, Sk::L1) => run_pair(Kraken, OrderBooksL1, case, &keys).await,
+        (Ex::Okx, Sk::Trades) => run_pair(Okx, PublicTrades, case, &keys).await,
         (e, k) => panic!("pair ({e:?}, {k:?}) is not served by StatelessTransformer in the dynamic builder"),
     }
 }
@@ -982,7 +1021,7 @@ fn emit_case(em: &mut Emitter, rt: &tokio::runtime::Runtime, stream: &'static st
         .map(|(m, (o, _))| pair(&m.coq(), o))
         .collect();
     let coq = format!(
-        "(mkCase {} {} {} {} {} {})",
+        "(CStream (mkCase {} {} {} {} {} {}))",
         case.ex.name(),
         case.sk.name(),
         list(&subs_coq),
@@ -1418,6 +1457,182 @@ fn table(em: &mut Emitter, rt: &tokio::runtime::Runtime, r: &mut Rng) {
     }
 }
 
+
+// ---------------------------------------------------------------------------------------------
+// which (exchange, instrument kind, subscription kind) triples the dynamic builder accepts:
+// exchange_supports_instrument_kind_sub_kind / exchange_supports_instrument_kind /
+// validate_subscriptions (the offline-callable part of streams::builder::dynamic)
+// ---------------------------------------------------------------------------------------------
+
+const ALL_EXCHANGE_IDS: [&str; 42] = [
+    "other", "simulated", "mock", "binance_futures_coin", "binance_futures_usd", "binance_options",
+    "binance_portfolio_margin", "binance_spot", "binance_us", "bitazza", "bitfinex", "bitflyer", "bitget",
+    "bitmart", "bitmart_futures_usd", "bitmex", "bitso", "bitstamp", "bitvavo", "bithumb",
+    "bybit_perpetuals_usd", "bybit_spot", "cexio", "coinbase", "coinbase_international", "cryptocom",
+    "deribit", "gateio_futures_btc", "gateio_futures_usd", "gateio_options", "gateio_perpetuals_btc",
+    "gateio_perpetuals_usd", "gateio_spot", "gemini", "hitbtc", "htx", "kraken", "kucoin", "liquid", "mexc",
+    "okx", "poloniex",
+];
+const ALL_SUB_KINDS: [(SubKind, &str); 6] = [
+    (SubKind::PublicTrades, "SKPublicTrades"),
+    (SubKind::OrderBooksL1, "SKOrderBooksL1"),
+    (SubKind::OrderBooksL2, "SKOrderBooksL2"),
+    (SubKind::OrderBooksL3, "SKOrderBooksL3"),
+    (SubKind::Liquidations, "SKLiquidations"),
+    (SubKind::Candles, "SKCandles"),
+];
+fn exchange_id(name: &str) -> ExchangeId {
+    serde_json::from_str::<ExchangeId>(&format!("\"{name}\"")).unwrap_or_else(|_| panic!("exchange id {name}"))
+}
+fn support_kind(code: u64) -> IK {
+    match code {
+        0 => IK::Spot,
+        1 => IK::Perp,
+        2 => IK::Future(1_735_545_600_000),
+        _ => IK::Option { call: true, expiry: 1_703_836_800_000, strike: "35000".into() },
+    }
+}
+fn sub_kind(i: u64) -> (SubKind, &'static str) {
+    ALL_SUB_KINDS[(i as usize) % 6]
+}
+
+/// input: {"support": true, "triples": [[exchange, kind code, sub kind index] ..],
+///         "batches": [[[exchange, kind code, sub kind index, base, quote] ..] ..]}
+fn emit_support(em: &mut Emitter, stream: &'static str, input: &Value) {
+    let mut tags = vec!["support:case".to_string()];
+    let triples: Vec<String> = input["triples"]
+        .as_array()
+        .unwrap()
+        .iter()
+        .map(|t| {
+            let ex = exchange_id(t[0].as_str().unwrap());
+            let ik = support_kind(t[1].as_u64().unwrap());
+            let (sk, skn) = sub_kind(t[2].as_u64().unwrap());
+            let real = ik.real();
+            let r3 = catch(AssertUnwindSafe(|| exchange_supports_instrument_kind_sub_kind(&ex, &real, sk)));
+            let r2 = catch(AssertUnwindSafe(|| exchange_supports_instrument_kind(ex, &real)));
+            let ob = |r: Result<bool, String>| match r {
+                Ok(true) => "SYes",
+                Ok(false) => "SNo",
+                Err(_) => "SPanic",
+            };
+            format!("({}, {}, {}, {}, {})", exch_coq(ex), ik.coq(), skn, ob(r3), ob(r2))
+        })
+        .collect();
+    if !triples.is_empty() {
+        tags.push("support:triple_table".into());
+    }
+    let mut batches = vec![];
+    for b in input["batches"].as_array().unwrap() {
+        let subs: Vec<Subscription<ExchangeId, MarketDataInstrument, SubKind>> = b
+            .as_array()
+            .unwrap()
+            .iter()
+            .map(|x| {
+                Subscription::new(
+                    exchange_id(x[0].as_str().unwrap()),
+                    MarketDataInstrument::new(x[3].as_str().unwrap(), x[4].as_str().unwrap(), support_kind(x[1].as_u64().unwrap()).real()),
+                    sub_kind(x[2].as_u64().unwrap()).0,
+                )
+            })
+            .collect();
+        let id_of = |su: &Subscription<ExchangeId, MarketDataInstrument, SubKind>| subs.iter().position(|o| o == su).unwrap_or(999_999);
+        let ins: Vec<String> = b
+            .as_array()
+            .unwrap()
+            .iter()
+            .zip(subs.iter())
+            .map(|(x, su)| {
+                format!(
+                    "({}, {}, {}, {})",
+                    n(id_of(su) as u128),
+                    exch_coq(su.exchange),
+                    support_kind(x[1].as_u64().unwrap()).coq(),
+                    sub_kind(x[2].as_u64().unwrap()).1
+                )
+            })
+            .collect();
+        let res = catch(AssertUnwindSafe(|| validate_subscriptions::<_, _, MarketDataInstrument>(subs.clone())));
+        let out = match res {
+            Err(_) => {
+                tags.push("support:batch_panic".into());
+                "VPanic".to_string()
+            }
+            Ok(Err(_)) => {
+                tags.push("support:batch_rejected".into());
+                "VErr".to_string()
+            }
+            Ok(Ok(v)) => {
+                tags.push("support:batch_accepted".into());
+                let sorted = v.windows(2).all(|w| w[0] < w[1]);
+                format!("(VOk {} {})", list(&v.iter().map(|su| n(id_of(su) as u128)).collect::<Vec<_>>()), b_(sorted))
+            }
+        };
+        batches.push(pair(&list(&ins), &out));
+    }
+    let coq = format!("(CSupport {} {})", list(&triples), list(&batches));
+    em.emit(Case { stream, input: input.clone(), coq, nontrivial: true, tags });
+}
+fn b_(x: bool) -> String {
+    if x { "true".into() } else { "false".into() }
+}
+
+/// triples the builder is expected to accept (generator side copy, only used to aim batches)
+const GOOD_TRIPLES: [(&str, u64, u64); 24] = [
+    ("binance_spot", 0, 0), ("binance_spot", 0, 1), ("binance_spot", 0, 2),
+    ("binance_futures_usd", 1, 0), ("binance_futures_usd", 1, 1), ("binance_futures_usd", 1, 2), ("binance_futures_usd", 1, 4),
+    ("bitfinex", 0, 0), ("bitmex", 1, 0), ("bybit_spot", 0, 0), ("bybit_perpetuals_usd", 1, 0), ("coinbase", 0, 0),
+    ("gateio_spot", 0, 0), ("gateio_futures_usd", 2, 0), ("gateio_futures_btc", 2, 0), ("gateio_perpetuals_usd", 1, 0),
+    ("gateio_perpetuals_btc", 1, 0), ("gateio_options", 3, 0), ("kraken", 0, 0), ("kraken", 0, 1),
+    ("okx", 0, 0), ("okx", 1, 0), ("okx", 2, 0), ("okx", 3, 0),
+];
+
+fn gen_support(em: &mut Emitter, r: &mut Rng, n_batch_cases: usize) {
+    // exhaustive: every ExchangeId x instrument kind x subscription kind
+    // (one case per exchange keeps replays small)
+    for ex in ALL_EXCHANGE_IDS.iter() {
+        let mut triples = vec![];
+        for k in 0..4u64 {
+            for sk in 0..6u64 {
+                triples.push(json!([ex, k, sk]));
+            }
+        }
+        emit_support(em, "table", &json!({"support": true, "triples": triples, "batches": []}));
+    }
+    for i in 0..n_batch_cases {
+        let mut batches = vec![];
+        for _ in 0..10 {
+            let n_subs = 1 + r.below(6);
+            let mut b: Vec<Value> = vec![];
+            let spoil = r.chance(1, 3);
+            for _ in 0..n_subs {
+                let (ex, k, sk) = *r.pick(&GOOD_TRIPLES);
+                let (ba, qu) = *r.pick(&RELATED);
+                if !b.is_empty() && r.chance(1, 4) {
+                    let d = r.pick(&b).clone(); // duplicate subscription
+                    b.push(d);
+                } else {
+                    b.push(json!([ex, k, sk, ba, qu]));
+                }
+            }
+            if spoil {
+                // one subscription the builder must refuse: wrong instrument kind, wrong
+                // subscription kind or an exchange without connector
+                let (ex, k, sk) = *r.pick(&GOOD_TRIPLES);
+                let bad = match r.below(3) {
+                    0 => json!([ex, (k + 1 + r.below(3)) % 4, sk, "btc", "usdt"]),
+                    1 => json!([ex, k, 3 + 2 * r.below(2), "btc", "usdt"]),
+                    _ => json!([*r.pick(&["binance_us", "deribit", "kucoin", "mock", "htx"]), k, sk, "btc", "usdt"]),
+                };
+                let pos = r.below(b.len() as u64 + 1) as usize;
+                b.insert(pos, bad);
+            }
+            batches.push(Value::Array(b));
+        }
+        emit_support(em, if i % 2 == 0 { "random" } else { "adversarial" }, &json!({"support": true, "triples": [], "batches": batches}));
+    }
+}
+
 fn main() {
     quiet_panics();
     let args = parse_args();
@@ -1428,6 +1643,7 @@ fn main() {
             let mut r = Rng::new(args.seed);
             let (n_rand, n_adv, max_subs, n_msgs) = if args.tier == "thorough" { (6000, 3000, 8, 10) } else { (380, 190, 5, 7) };
             table(&mut em, &rt, &mut r);
+            gen_support(&mut em, &mut r, if args.tier == "thorough" { 40 } else { 6 });
             let fls = [Flavour::Plain, Flavour::Keyed, Flavour::Named];
             for i in 0..n_rand {
                 let pair = PAIRS[i % PAIRS.len()];
@@ -1444,6 +1660,10 @@ fn main() {
         }
         "exec" => {
             for (inp, stream) in read_inputs(args.input.as_deref().expect("--in")) {
+                if inp.get("support").is_some() {
+                    emit_support(&mut em, stream_static(&stream), &inp);
+                    continue;
+                }
                 let case = CaseIn::from_json(&inp);
                 emit_case(&mut em, &rt, stream_static(&stream), &case, &[]);
             }
